@@ -27,6 +27,10 @@ import (
 	"verifharness/vlib"
 )
 
+// per-case watchdog (=> inconclusive); the machine may be heavily loaded and a
+// goroutine profile stops the world, so it is far above any case's run time
+const caseWatchdog = 90 * time.Second
+
 type jobErr struct{ i int }
 
 func (e *jobErr) Error() string { return fmt.Sprintf("c33 job %d failed", e.i) }
@@ -83,10 +87,10 @@ func jitter(kind, n int) {
 }
 
 func settle(r *vlib.Run, what string, done func() bool) bool {
-	deadline := time.Now().Add(20 * time.Second)
+	deadline := time.Now().Add(caseWatchdog)
 	for !done() {
 		if time.Now().After(deadline) {
-			r.Inconclusive("jobs did not settle within 20s in " + what)
+			r.Inconclusive("jobs did not settle within " + caseWatchdog.String() + " in " + what)
 			return false
 		}
 		time.Sleep(200 * time.Microsecond)
@@ -127,7 +131,7 @@ func workerGoroutines(label string) int {
 // watchdog is the case inconclusive.
 func settleWorker(r *vlib.Run, what, label string, allFinished func() bool) bool {
 	begin := time.Now()
-	deadline := begin.Add(20 * time.Second)
+	deadline := begin.Add(caseWatchdog)
 	for !allFinished() {
 		if time.Since(begin) > time.Millisecond {
 			r.Count("goroutine_profiles_taken", 1)
@@ -137,7 +141,7 @@ func settleWorker(r *vlib.Run, what, label string, allFinished func() bool) bool
 			}
 		}
 		if time.Now().After(deadline) {
-			r.Inconclusive("job goroutines still alive 20s after Wait returned in " + what)
+			r.Inconclusive("job goroutines still alive " + caseWatchdog.String() + " after Wait returned in " + what)
 			return false
 		}
 		time.Sleep(200 * time.Microsecond)
@@ -301,7 +305,7 @@ func workerCase(r *vlib.Run, idx int) {
 		l.mu.Unlock()
 	}
 
-	ok := r.WithWatchdog(20*time.Second, fmt.Sprintf("worker case %d", idx), func() {
+	ok := r.WithWatchdog(caseWatchdog, fmt.Sprintf("worker case %d", idx), func() {
 		if c.WaitEarly {
 			go doWait()
 		}
@@ -486,7 +490,7 @@ func workerCase(r *vlib.Run, idx int) {
 	}
 	r.Count("consecutive_starts_without_finish_between", overl)
 	r.Count("cases_"+c.Mode, 1)
-	if idx < 3 {
+	if idx < 2 {
 		r.Sample(map[string]any{"case": c, "accepted": accepted, "failed": failedTotal, "wait_error": fmt.Sprint(waitErr), "finished_when_wait_returned": finishedAtWait})
 	}
 }
@@ -563,7 +567,7 @@ func batchCase(r *vlib.Run, idx int) {
 	var ret error
 	var retSeq int64
 	var failedAtRet, failedWhenReturned []int
-	ok := r.WithWatchdog(20*time.Second, fmt.Sprintf("batch case %d", idx), func() {
+	ok := r.WithWatchdog(caseWatchdog, fmt.Sprintf("batch case %d", idx), func() {
 		ret = util.BatchWork(parent, int64(c.Jobs), c.Limit,
 			func(_ context.Context, last uint64) error {
 				mu.Lock()
@@ -744,7 +748,7 @@ func batchCase(r *vlib.Run, idx int) {
 	if ret != nil {
 		r.Count("batchwork_returned_error", 1)
 	}
-	if idx < 2 {
+	if idx < 1 {
 		r.Sample(map[string]any{"case": c, "prepares": len(preps), "visits": nvis, "returned": fmt.Sprint(ret)})
 	}
 }
@@ -799,7 +803,7 @@ func runJobWorkerCase(r *vlib.Run, idx int, directed bool) {
 	var ret error
 	var failedWhenReturned []int
 	var finishedWhenReturned int
-	ok := r.WithWatchdog(20*time.Second, fmt.Sprintf("runjobworker case %d", idx), func() {
+	ok := r.WithWatchdog(caseWatchdog, fmt.Sprintf("runjobworker case %d", idx), func() {
 		ret = util.RunJobWorker(parent, c.Sem, int64(c.Jobs), func(_ context.Context, i, _ uint64) error {
 			running.Add(1)
 			defer running.Add(-1)
@@ -899,7 +903,8 @@ func runJobWorkerCase(r *vlib.Run, idx int, directed bool) {
 func TestC33(t *testing.T) {
 	r := vlib.Start(t, "C33", vlib.LevelExploration)
 	defer r.Finish()
-	r.SetRule("case = one worker run from the seeded PRNG: BaseJobWorker or ErrCallbackJobWorker with 0..300 jobs, semaphore 1..64, 1-3 concurrent submitters, Wait started before or after submitting, failing job sets (none / exactly one / random), optional cancellation of the parent context from inside a job, jobs with scheduling jitter; or BatchWork with size 1..300, limit 1..50, failing visits, failing prepare, cancellation; or RunJobWorker (worker size 1..8, 1..80 jobs) incl. a directed schedule where the submitter waits inside NewJob for a free slot while the running job fails. distinct = parameters + hash of the observed order of job start/finish events; non-trivial = at least 2 jobs")
+	r.SetRule("case = one worker run from the seeded PRNG: BaseJobWorker or ErrCallbackJobWorker with 0..300 jobs, semaphore 1..64, 1-3 concurrent submitters, Wait started before or after submitting, failing job sets (none / exactly one / random), optional cancellation of the parent context from inside a job, jobs with scheduling jitter; or BatchWork with size 1..300, limit 1..50, failing visits, failing prepare, cancellation; or RunJobWorker (worker size 1..8, 1..80 jobs) incl. a directed schedule where the submitter waits inside NewJob for a free slot while the running job fails; or a last-failure race case: 40 trials with 1..3 jobs on a worker of size 1..3 (BaseJobWorker+Wait, RunJobWorker, BatchWork with one batch or limit 1) in which the only failing job is the last to finish and returns its error while the caller enters Wait, both sides delayed by random busy loops of 0..30/100/300/1000/4000 iterations (a sub-microsecond sweep of that schedule), the job's error must be returned; or a cancellation case for each of the 7 exported entry points (BaseJobWorker+Wait, BaseJobWorker+LazyWait, ErrCallbackJobWorker+Wait, RunJobWorker, RunErrCallbackJobWorker, RunJobWorkerByJobs, BatchWork with the running jobs in a first/middle/last/only batch): 1..6 (thorough 1..40) jobs block until THE CONTEXT THE WORKER PASSED TO THEM is done (watching it by select on Done, polling Err, a child context or AfterFunc; returning nil, ctx.Err, the cause or an own later error afterwards), a barrier tells the designated job when all of them are running, then it returns the first error of the run (or cancels the caller's context; for the error-callback workers: returns an error to the callback and cancels the caller's context); worker size = exactly those jobs (submitter waits inside NewJob) or larger, 0..24 (thorough 0..300) ordinary jobs around them; the oracle waits for each running job to see its context done after the runner returned and reports a job whose own context still has Err()==nil 3s after the runner returned. distinct = parameters + hash of the observed order of job start/finish (and trigger / context-seen-done / runner-returned) events; non-trivial = at least 2 jobs")
+	r.Assume("'cancels the remaining work' is judged on the context handed to each job: a running job is cancelled when that context is done; a job whose context is done but which the scheduler has not run yet is waited for (watchdog => inconclusive), never reported")
 	r.Assume("when a job failed or the context was cancelled Wait may return before the remaining jobs finished (the statement only says the first error is returned); the oracle then only requires the returned error to be one a job had already returned")
 	r.Assume("'an accepted job never runs' is decided without a time bound: every goroutine of a case carries a pprof label which the worker's job goroutines inherit; when the goroutine profile shows no labelled goroutine inside the worker's code after Wait returned, no job can start any more")
 	r.Assume("NewJob is not called concurrently with Done(): submitters finish, then Done() is called (as runWorker does)")
@@ -910,6 +915,10 @@ func TestC33(t *testing.T) {
 	vlib.Parallel(nb, 16, func(i int) { batchCase(r, i) })
 	nd := r.N(40, 400)
 	vlib.Parallel(nd, 4, func(i int) { runJobWorkerCase(r, i, true) })
+	nc := r.N(560, 7000)
+	vlib.Parallel(nc, 16, func(i int) { cancelCase(r, i) })
+	nl := r.N(300, 9000)
+	vlib.Parallel(nl, 16, func(i int) { lastFailureRaceCase(r, i) })
 	nr := r.N(800, 15000)
 	vlib.Parallel(nr, 16, func(i int) { runJobWorkerCase(r, 100000+i, false) })
 }
